@@ -95,3 +95,25 @@ func Harness_C06_BadFileInClosure() {
 		}
 	}
 }
+
+// file names may contain '%' (URL-encoded names, "100%sure"): the error still names the file
+func Harness_C06_PercentInNames() {
+	name := []string{"b%sx", "100%sure", "a%20b", "p%"}[nd.IntRange("name", 0, 3)]
+	how := nd.IntRange("fails-by", 0, 2) // missing, syntax error, root itself bad
+	files := map[string]string{"a.sysl": "import " + name + "\nApp:\n    ...\n"}
+	root := "a.sysl"
+	switch how {
+	case 1:
+		files[name+".sysl"] = "B:\n    !type\n"
+	case 2:
+		files = map[string]string{name + ".sysl": "B:\n    !type\n"}
+		root = name + ".sysl"
+	}
+	mod, err, crashed, msg := feCompile(files, root)
+	nd.Note(msg)
+	nd.Assert("percent:no-crash", !crashed)
+	nd.Assert("percent:fails", err != nil && mod == nil)
+	if err != nil {
+		nd.Assert("percent:error-names-the-file-as-written", strings.Contains(err.Error(), name+".sysl"))
+	}
+}
